@@ -2,7 +2,7 @@
 
 use super::collect_pair;
 use crate::{Error, ErrorKind, InstructionFrame, KIteratorOutput as Output, Result, prelude::*};
-use std::{collections::VecDeque, mem::take, result::Result as StdResult};
+use std::{collections::VecDeque, result::Result as StdResult};
 use thiserror::Error;
 
 /// An iterator that links the output of two iterators together in a chained sequence
@@ -774,12 +774,30 @@ impl KotoIterator for Skip {
 
     fn next_back(&mut self) -> Option<Output> {
         // Ensure the forward output has been skipped before yielding output from the back
-        if self.remaining > 0 {
-            self.iter.nth(self.remaining - 1);
-            self.remaining = 0;
+        if let Some(error) = self.skip_remaining() {
+            return Some(error);
         }
 
         self.iter.next_back()
+    }
+}
+
+impl Skip {
+    // Skips over the values that still need to be skipped
+    //
+    // If one of the skipped values is an error then it's returned rather than being discarded.
+    fn skip_remaining(&mut self) -> Option<Output> {
+        while self.remaining > 0 {
+            self.remaining -= 1;
+            match self.iter.next() {
+                Some(error @ Output::Error(_)) => return Some(error),
+                Some(_) => {}
+                None => {
+                    self.remaining = 0;
+                }
+            }
+        }
+        None
     }
 }
 
@@ -787,11 +805,11 @@ impl Iterator for Skip {
     type Item = Output;
 
     fn next(&mut self) -> Option<Self::Item> {
-        if self.remaining > 0 {
-            self.iter.nth(take(&mut self.remaining))
-        } else {
-            self.iter.next()
+        if let Some(error) = self.skip_remaining() {
+            return Some(error);
         }
+
+        self.iter.next()
     }
 
     fn size_hint(&self) -> (usize, Option<usize>) {
@@ -854,7 +872,10 @@ impl Iterator for Step {
         // so that nothing beyond the yielded value gets consumed from the input.
         if self.started {
             for _ in 0..self.step - 1 {
-                self.iter.next()?;
+                // Errors in the skipped values are passed on rather than being discarded
+                if let error @ Output::Error(_) = self.iter.next()? {
+                    return Some(error);
+                }
             }
         } else {
             self.started = true;
